@@ -101,6 +101,11 @@ func ParseRoller(l *LogRoller, what string, where ...string) error {
 	case directiveRotateDisable:
 		l.Disabled = true
 	case directiveRotateSize:
+		if value < 0 {
+			// the rolling writer refuses every entry when the
+			// maximum size is negative: nothing would be logged
+			return errInvalidRollParameter
+		}
 		l.MaxSize = value
 	case directiveRotateAge:
 		l.MaxAge = value
